@@ -315,14 +315,14 @@ m = {
 HEADS = (" A sample of the judged lines is replayed as the head of `if` / `else if` / `while` in a script (drivers/structure.py) and must have "
          "the same effect as the plain line, the body running exactly when the plain line's status is 0.")
 EXTRA = {
- "C01": HEADS, "C03": HEADS, "C13": HEADS + " Produced text also stands behind a literal prefix (`k=$V`, `--o=$V`).",
+ "C01": HEADS + " An alias name after a quoted operator character stays an argument.", "C03": HEADS + " List members that start no program (assignment-only, rejected command) and pipelines that cannot start a stage (descriptor limit) have the status the operators act on.", "C13": HEADS + " Produced text also stands behind a literal prefix (`k=$V`, `--o=$V`), is the value of an assignment word, an alternative of a typed brace list, the output of a nested substitution or of a reference inside an embedded substitution; payloads include text that looks like another expansion ($(cmd), backquotes, brace lists, ranges): spec/Passes.tla (passes over the same tokens; rescan = negative control).",
  "C04": HEADS + " The redirected command also is the middle stage and the third / fourth stage of its pipeline.",
  "C10": HEADS + " TLC-simulated histories of assignment / export / unset / read / prefixed commands (spec/EnvDir.tla) with every name expanded "
         "after every operation decide 'the current value'.",
  "C11": HEADS + " Builtins as inner commands are judged against their own stand-alone output.",
  "C12": HEADS + " Words are also placed in `for` word lists; a brace group and `*` in one word (the group first, each produced word a pattern "
         "of its own) and ranges whose bounds are next to the 32-bit limits are part of the model.",
- "C02": " Stages that are stopped and continued from outside while the pipeline runs have not terminated (controller-stage scenarios).",
+ "C02": " Stages that are stopped and continued from outside while the pipeline runs have not terminated (controller-stage scenarios); a pipeline that cannot start a stage under a descriptor limit still terminates; a foreground pipeline ended by Ctrl-C reports 130 with the shell polling and with its SIGCHLD handler enabled.",
  "C05": " Seed lines hold numeric bounds next to the machine limits and unterminated references.",
  "C07": " spec/Launch.tla also models who hands the terminal over (only the shell = pinned: negative control) and the shell taking it back; "
         "foreground jobs that read the terminal at once are run under widened fork windows; directed sessions cover an older job ending while "
@@ -334,7 +334,7 @@ EXTRA = {
  "C16": " Two further entries place the line between other, indented lines of a script / function body.",
  "C17": " Every value is shown by name, listed and used under three kinds of name; aliases are used as the whole command (also names of digits "
         "and dots) at every position.",
- "C18": " One history stores every text and searches every pattern (also patterns with leading / trailing backslashes).",
+ "C18": " One history stores every text and searches every pattern (also patterns with leading / trailing backslashes). Apalache discharges an inductive invariant of the table core for arbitrary integer ids (spec/apalache/HistoryInd.tla).",
  "C19": " Float powers of a negative base with whole exponents beyond 2^31 are checked for the parity of the exponent.",
  "C20": " A file inside a completed directory (two completions on one word) is part of the pty layer.",
 }
